@@ -353,6 +353,73 @@ fn cmd_deep(v: usize, n: usize, stack_kb: usize) {
     }
 }
 
+/// C12: for each protocol, which opcode bytes occur (as opcodes, taken from the per-step trace, never from
+/// payload bytes) in the outputs of seeds 0..n with default settings; first seed per opcode; framed / unframed seeds
+fn cmd_census(nseeds: u64, ext: bool, buf: bool) {
+    let per_v: Vec<String> = std::thread::scope(|s| {
+        let hs: Vec<_> = (0..6usize)
+            .map(|v| {
+                std::thread::Builder::new()
+                    .stack_size(256 << 20)
+                    .spawn_scoped(s, move || {
+                        let mut first: [Option<u64>; 256] = [None; 256];
+                        let mut count = [0u64; 256];
+                        let (mut framed, mut unframed): (Option<u64>, Option<u64>) = (None, None);
+                        for seed in 0..nseeds {
+                            let mut g = Generator::new(Version::try_from(v).unwrap())
+                                .with_seed(seed)
+                                .with_ext_opcodes(ext)
+                                .with_buffer_opcodes(buf);
+                            pf::verif::start();
+                            let out = g.generate().unwrap();
+                            let tr = pf::verif::take();
+                            let mut seen = [false; 256];
+                            for l in &tr {
+                                let w: Vec<&str> = l.split(' ').collect();
+                                if w[0] == "STEP" && w[5] != "-" && w[5] != "!" {
+                                    seen[usize::from_str_radix(&w[5][0..2], 16).unwrap()] = true;
+                                } else if w[0] == "META" {
+                                    if w[1] == "frame=1" {
+                                        seen[0x95] = true;
+                                        framed.get_or_insert(seed);
+                                    } else {
+                                        unframed.get_or_insert(seed);
+                                    }
+                                }
+                            }
+                            if v >= 2 && out.first() == Some(&0x80) {
+                                seen[0x80] = true;
+                            }
+                            for b in 0..256 {
+                                if seen[b] {
+                                    first[b].get_or_insert(seed);
+                                    count[b] += 1;
+                                }
+                            }
+                        }
+                        let ops: Vec<String> = (0..256)
+                            .filter(|&b| first[b].is_some())
+                            .map(|b| format!("{:02x}:{}:{}", b, first[b].unwrap(), count[b]))
+                            .collect();
+                        format!(
+                            "CENSUS v={} seeds={} framed={} unframed={} ops={}",
+                            v,
+                            nseeds,
+                            framed.map(|x| x.to_string()).unwrap_or("-".into()),
+                            unframed.map(|x| x.to_string()).unwrap_or("-".into()),
+                            ops.join(",")
+                        )
+                    })
+                    .unwrap()
+            })
+            .collect();
+        hs.into_iter().map(|h| h.join().unwrap()).collect()
+    });
+    for l in per_v {
+        println!("{}", l);
+    }
+}
+
 fn cmd_lines(path: &str, f: fn(&str) -> Vec<String>) {
     let stdout = std::io::stdout();
     let mut w = std::io::BufWriter::new(stdout.lock());
@@ -385,6 +452,7 @@ fn main() {
             let _ = std::panic::take_hook();
             cmd_deep(a[2].parse().unwrap(), a[3].parse().unwrap(), a[4].parse().unwrap())
         }
+        Some("census") => cmd_census(a[2].parse().unwrap(), a[3] == "1", a[4] == "1"),
         Some("adapt") => cmd_lines(&a[2], adapt_case),
         Some("hist") => cmd_lines(&a[2], hist_case),
         Some("words") => cmd_words(a[2].parse().unwrap(), a[3].parse().unwrap()),
